@@ -411,12 +411,14 @@ class Harness(object):
         cur = b.base_currency
         VE, KE = (ValueError,), (KeyError,)
         call, exp = None, VE
+        over_of = None
         if kind == 'neg_asub':
             call = lambda: b.subscribe_funds_to_account(-x)
         elif kind == 'neg_awd':
             call = lambda: b.withdraw_funds_from_account(-x)
         elif kind == 'over_awd':
             call = lambda: b.withdraw_funds_from_account(b.get_account_cash_balance(cur) + x)
+            over_of = b.get_account_cash_balance(cur)
         elif kind == 'unk_psub':
             call, exp = (lambda: b.subscribe_funds_to_portfolio('nope', min(x, b.get_account_cash_balance(cur)))), KE
         elif kind == 'unk_pwd':
@@ -445,10 +447,12 @@ class Harness(object):
             call = lambda: b.subscribe_funds_to_portfolio(pid, -x)
         elif kind == 'over_psub':
             call = lambda: b.subscribe_funds_to_portfolio(pid, b.get_account_cash_balance(cur) + x)
+            over_of = b.get_account_cash_balance(cur)
         elif kind == 'neg_pwd':
             call = lambda: b.withdraw_funds_from_portfolio(pid, -x)
         elif kind == 'over_pwd':
             call = lambda: b.withdraw_funds_from_portfolio(pid, max(0.0, port.cash) + x)
+            over_of = port.cash
             if port.cash < 0:
                 self.flags.add('over_pwd_with_negative_cash')
         elif kind == 'dup':
@@ -480,7 +484,8 @@ class Harness(object):
         elif kind == 'p_neg_wd':
             call = lambda: port.withdraw_funds(port.current_dt, -max(x, 0.01))
         elif kind == 'p_over_wd':
-            call = lambda: port.withdraw_funds(port.current_dt, max(0.0, port.cash) + max(x, 0.01))
+            call = lambda: port.withdraw_funds(port.current_dt, max(0.0, port.cash) + x)
+            over_of = port.cash
         elif kind in ('lead_psub', 'lead_pwd'):
             # a valid future-dated direct deposit makes the portfolio clock lead the broker clock; until the
             # broker catches up the portfolio refuses broker-level transfers and the master must stay untouched
@@ -500,8 +505,12 @@ class Harness(object):
             raise RuntimeError('unknown bad kind %r' % kind)
         if kind in ('neg_asub', 'neg_awd', 'neg_psub', 'neg_pwd', 'multi_unk_neg', 'neg_init') and x <= 0:
             return
-        if kind in ('over_awd', 'over_psub', 'over_pwd') and x <= 0:
-            return
+        if kind in ('over_awd', 'over_psub', 'over_pwd', 'p_over_wd'):
+            # only a request that really exceeds the balance in floating point is invalid
+            if x <= 0 or not (max(0.0, over_of) + x > over_of):
+                return
+            if x < 0.005:
+                self.flags.add('sub_cent_excess')
         n_tx = len(self.txlog)
         raised = None
         try:
